@@ -238,6 +238,21 @@ fn cmd_stats(id: &str, cases: u64) -> i32 {
     0
 }
 
+fn cmd_show(id: &str, n: usize) -> i32 {
+    use proptest::strategy::{Strategy, ValueTree};
+    vcore::run::install_panic_hook();
+    let stages = stages(id);
+    let stage = &stages[0];
+    let mut runner = proptest::test_runner::TestRunner::deterministic();
+    let strat = proptest::collection::vec(proptest::num::u16::ANY, stage.prop.max_tape() / 3..=stage.prop.max_tape());
+    for _ in 0..n {
+        let tape = strat.new_tree(&mut runner).unwrap().current();
+        let rep = stage.prop.eval(&tape);
+        println!("{}labels={:?} nontrivial={} fail={:?}\n", stage.prop.describe(&tape), rep.labels, rep.nontrivial, rep.failure.map(|f| f.signature));
+    }
+    0
+}
+
 fn main() {
     let args: Vec<String> = std::env::args().collect();
     let code = match args.get(1).map(|s| s.as_str()) {
@@ -250,6 +265,7 @@ fn main() {
         }
         Some("part") => cmd_part(&args[2], &args[3], args[4].parse().unwrap(), args[5].parse().unwrap()),
         Some("replay") => cmd_replay(&args[2]),
+        Some("show") => cmd_show(&args[2], args.get(3).and_then(|s| s.parse().ok()).unwrap_or(3)),
         Some("stats") => cmd_stats(&args[2], args.get(3).and_then(|s| s.parse().ok()).unwrap_or(2000)),
         _ => {
             eprintln!("usage: vrun check <ID> <quick|thorough> | part .. | replay <file> | stats <ID> [cases]");
